@@ -209,7 +209,7 @@ def main(argv=None):
         rule="every well-typed program (NumPy accepts every statement) of <= 3 statements (thorough: + a third of the 4-statement "
              "programs with >= 2 in-place statements) with at least one in-place statement, over the statement templates of "
              "harness/viewprog.py, from a base of shape (6,) or (2,3), C-ordered and (<= 2 statements in quick) non-C-ordered (2,3), (3,2); plus the 4-statement family "
-             "two views, .shape assigned to one tensor of the family, one in-place update"; plus the constant-flag family (constant or non-constant "
+             "'two views, .shape assigned to one tensor of the family, one in-place update'; plus the constant-flag family (constant or non-constant "
              "base, a view created with an explicit constant=True/False through reshape/transpose/swapaxes/expand_dims, a second view, one in-place "
              "statement on any member); non-trivial = a program that ran to the end in both worlds",
         explanation="programs are enumerated exhaustively within the grammar; data are symbolic and pairwise distinct, so a value that "
